@@ -966,6 +966,29 @@ func c11Strict(r *findings.Run, fns map[string]physical.FunctionDetails) {
 			r.Violation(fmt.Sprintf("C11/strict/%s/materialize-failed", t.sig()), fmt.Sprintf("%s cannot be materialized: %v %v", t.sig(), errM, panM), c11Case{Part: "strict", Expr: t.sig()})
 			return
 		}
+		// path W: the arguments are declared as a wider union T | X | NULL (a column holding mixed kinds): the
+		// typechecker accepts the call as a "maybe" match and wraps the argument in a run-time type assertion; a NULL
+		// argument must still make the strict function return NULL
+		var eW execution.Expression
+		{
+			wfields := make([]physical.SchemaField, n)
+			for i, k := range t.kinds {
+				other := octosql.String
+				if k.typ.TypeID == octosql.TypeIDString {
+					other = octosql.Int
+				}
+				wfields[i] = physical.SchemaField{Name: fmt.Sprintf("v%d", i), Type: octosql.TypeSum(octosql.TypeSum(k.typ, other), octosql.Null)}
+			}
+			labW := c11NewLab(fns, wfields)
+			if pW, rejW := labW.typecheck(logical.NewFunctionExpression(t.fn, lvars)); rejW == "" {
+				if e, err, pan := labW.materialize(pW); err == nil && pan == nil {
+					eW = e
+					r.Outcome("strict/wide-union-arguments-accepted")
+				}
+			} else {
+				atomic.AddInt64(&rej, 1)
+			}
+		}
 
 		expectNull := func(path string, e execution.Expression, vals []octosql.Value, desc string) (ok bool) {
 			v, err, pan := c11Eval(e, c11Ctx(vals))
@@ -974,6 +997,11 @@ func c11Strict(r *findings.Run, fns map[string]physical.FunctionDetails) {
 			switch {
 			case pan != nil:
 				got = fmt.Sprintf("panic: %v", pan)
+			case err != nil && path == "typecheck-wide-union":
+				// with a wide union the typechecker may pick another overload and the run-time type assertion of a
+				// non-NULL argument fails: a reported error, by design, not a wrong value
+				r.Outcome("strict/wide-union/type-assertion-error")
+				return true
 			case err != nil:
 				got = fmt.Sprintf("error: %v", err)
 			case v.TypeID != octosql.TypeIDNull:
@@ -1012,6 +1040,9 @@ func c11Strict(r *findings.Run, fns map[string]physical.FunctionDetails) {
 				continue
 			}
 			if eT != nil && !expectNull("typecheck", eT, vals, desc) {
+				continue
+			}
+			if eW != nil && !expectNull("typecheck-wide-union", eW, vals, desc+" with arguments declared T | X | NULL") {
 				continue
 			}
 
